@@ -220,13 +220,26 @@ static const std::vector<long long>& steps() {
   return N;
 }
 
+// For the sub-day alignments: whole numbers of days around one year (the day carry then lands on the
+// -365 / +365 thresholds of the day normaliser), in the alignment's own unit.  Era 0 only.
+static const std::vector<long long>& year_steps(int a) {
+  static std::vector<long long> S[3];
+  if (S[0].empty()) {
+    const long long unit[3] = {86400, 1440, 24};
+    for (int k = 0; k < 3; ++k) for (long long d = 364; d <= 397; ++d) { S[k].push_back(d * unit[k]); S[k].push_back(-d * unit[k]); }
+  }
+  return S[a];
+}
+
 template <typename T>
 static void c05_at(const Civil& base, hz::Result& r, const char* era_cls) {
   const int a = AlignInfo<T>::a;
   const Civil ab = align_ref(base, a);
   const T x(static_cast<long long>(ab.y), ab.m, ab.d, ab.hh, ab.mm, ab.ss);
   const i128 ix = index_of(ab, a);
-  for (long long n : steps()) {
+  std::vector<long long> all = steps();
+  if (a <= 2 && strcmp(era_cls, "era0") == 0) { const std::vector<long long>& ys = year_steps(a); all.insert(all.end(), ys.begin(), ys.end()); }
+  for (long long n : all) {
     // a + n
     const i128 iy = ix + n;
     const Civil want = civil_of_index(iy, a);
